@@ -152,6 +152,30 @@ def run(P, R, tier):
                 okd = True
     R.check(okd, 'C11.d', pr, None, 'pieces are natural-sorted inside each dataset and appended dataset by dataset (datasets keep the order given)',
             'pieces are not sorted per dataset with the natural key: several datasets read through a list are interleaved / part.10 precedes part.2', construct='per-dataset natural sort')
+    # C11.e: which files make up a dataset directory is decided by listing the directory, never by names recorded inside a file
+    # (recorded names go stale when parts are renumbered or the dataset is moved; then the read fails or silently skips files)
+    def reads_content(c, g):
+        if astq.fs_call(c, {'open', 'cat', 'cat_file', 'read_bytes'}):
+            return True
+        r_ = P.resolve_call(g, c)
+        return bool(r_ and r_[0] == 'ext' and r_[1].split('.')[-1] in ('read_metadata', 'read_table', 'ParquetFile', 'read_schema'))
+    nds = 0
+    for c in astq.own_calls(pr):
+        if norm(c.func).split('.')[-1] == 'ParquetDataset' and c.args and isinstance(c.args[0], ast.Name):
+            nds += 1
+            nm = c.args[0].id
+            stale = []
+            for d in astq.assignments(pr, nm):
+                if d[0] != 'expr':
+                    continue
+                for cc in [x for x in ast.walk(d[1]) if isinstance(x, ast.Call)]:
+                    r = P.resolve_call(pr, cc)
+                    if r and r[0] == 'func' and astq.performs(P, r[1], reads_content, depth=3):
+                        stale.append(cc)
+            R.check(not stale, 'C11.e', pr, stale[0] if stale else c, 'the data files of a dataset directory are found by listing it',
+                    f'`{norm(stale[0]) if stale else ""}` supplies the files to read from names recorded inside a file: after the parts were renumbered (compaction of empty partitions) '
+                    'or the dataset was moved, recorded names no longer exist', construct='dataset files come from the directory listing')
+    R.floor('C11.e', 'ParquetDataset constructions in the Dask reader', nds, 1)
     # no global re-sort of the combined list afterwards
     plist = None
     for lp in astq.own_nodes(pr, ast.For):
